@@ -143,7 +143,23 @@ func (d *Describer) lin(v ssa.Value, reach *Reach, depth int) LinForm {
 				return a.scale(c)
 			}
 		case token.REM:
-			return linLeaf("rem(" + a.String() + ", " + b.String() + ")")
+			// (x % m + c) % m = (x + c) % m for x ≥ 0, m > 0: fold an inner remainder
+			// by the same modulus so that both spellings have one normal form
+			for k, c := range a.Coef {
+				if c == 1 && strings.HasPrefix(k, "rem(") && strings.HasSuffix(k, ", "+b.String()+")") {
+					if inner, ok := d.remInner[k]; ok {
+						a2 := a.add(linLeaf(k), -1).add(inner, 1)
+						a = a2
+						break
+					}
+				}
+			}
+			name := "rem(" + a.String() + ", " + b.String() + ")"
+			if d.remInner == nil {
+				d.remInner = map[string]LinForm{}
+			}
+			d.remInner[name] = a
+			return linLeaf(name)
 		case token.QUO:
 			// (x / c1) / c2 = x / (c1·c2) for positive constants (flooring division)
 			if c2, ok := b.isConst(); ok && c2 > 0 {
